@@ -25,9 +25,21 @@ fn inverse_epsilon() -> f64 {
 
 /// Thin wrapper around `f64` providing utility functions and more accurate
 /// operations -- namely a Sass-compatible modulo
-#[derive(Clone, Copy, PartialOrd)]
+#[derive(Clone, Copy)]
 #[repr(transparent)]
 pub struct Number(pub f64);
+
+// Ordering is consistent with the fuzzy `PartialEq` below: numbers that compare
+// equal are neither less nor greater than each other (dart-sass: fuzzyLessThan).
+impl PartialOrd for Number {
+    fn partial_cmp(&self, other: &Self) -> Option<std::cmp::Ordering> {
+        if self == other {
+            Some(std::cmp::Ordering::Equal)
+        } else {
+            self.0.partial_cmp(&other.0)
+        }
+    }
+}
 
 impl PartialEq for Number {
     fn eq(&self, other: &Self) -> bool {
